@@ -18,43 +18,90 @@ THEOREMS = [
 ]
 HARNESS = {"src": ["midi.cpp"], "deps": ["common.h"]}
 STATELESS = True
-RULE = ("one case = one whole history (12..70 steps) of map/unMap/clear on 2..4 int/float parameters, incoming "
-        "CC(id,value) from 2..6 controller ids and explicit deliveries of the two message channels; streams: "
-        "synchronous histories, random delivery orders, systematically enumerated delivery orders of short "
-        "scripts (thorough tier: ALL 4^n assignments of a delivery word from {-, r, n, r n} to the n <= 8 calls of five "
-        "scripts), histories with clear; every history ends with a drain and a probe of every controller; "
-        "non-trivial = the history queues an address, delivers at least one learn request and sends at least two "
-        "controller values (measured: > 90 % of such lines drive a parameter); distinct = distinct op line")
+RULE = ("one case = one whole history (12..70 steps; long sessions 250..450 steps) of map/unMap/clear on 2..4 int/float "
+        "parameters, incoming CC(id,value) from 2..6 controller ids and explicit deliveries of the two message channels. "
+        "Port tables: names spelled p<k>:i, p<k>:f, p<k>::i, p<k>::f, p<k>:f:i, p<k>:i:f, optionally padded to up to 62 "
+        "characters and nested in up to 3 sub-tables (addresses of 3..75 characters), extra metadata keys around min/max "
+        "(documentation, parameter, scale=logarithmic|linear, shortname, unit); ranges from a table of boundary ranges "
+        "(65 %) or random (35 %; int ranges with integral bounds incl. max=127 with min!=0, float ranges in eighths). "
+        "Streams: synchronous histories, random delivery orders, learn-heavy bursts, systematically enumerated delivery "
+        "orders of short scripts (thorough tier: ALL 4^n assignments of a delivery word from {-, r, n, r n} to the n <= 8 "
+        "calls of five scripts), histories with clear, long sessions with 33..45 completed learn handshakes (the 32-cell "
+        "pending ring wraps); every history ends with a drain and a probe of every controller; non-trivial = the history "
+        "queues an address, delivers at least one learn request and sends at least two controller values (measured: "
+        "> 90 % of such lines drive a parameter); distinct = distinct op line")
 ASSUMPTIONS = ["every port carries min/max metadata with min <= max, both multiples of 1/8, |.| < 2^20",
+               "an int parameter has an int range (the statement's 'int and float ranges'): min and max of a port that "
+               "is sent 'i' messages are integers. With fractional bounds the unchanged code leaves the declared range "
+               "(port p0:i with min=0.125 max=100.125, op line `P:i:1:801,f:0:8 m0c r c:5:0 n r c:5:0`: value 0 sends "
+               "(int)0.125 = 0 < min; Lean: int_port_fractional_bound_counterexample); such ports are not generated",
+               "a port whose signature accepts both f and i (:f:i, :i:f) may be sent either type",
                "controller values are 7-bit (0..127); controller numbers 0..16383, channels 0..127",
+               "addresses are at most 75 characters, so that every message fits the 1024-byte buffers of the callbacks",
                "the application forwards nRT->RT messages to MidiMapperRT::ports and /midi-use-CC to useFreeID, "
                "each channel in FIFO order (the channels themselves are C06's subject)",
-               "float outputs are compared with the exact linear map within 4 ulp of the range's magnitude, int "
-               "outputs within 1 (truncation / the 0..127 special case)"]
+               "oracle: float outputs must lie in [min,max], be monotone, and agree with the exact linear map within "
+               "4 ulp of the range's magnitude, int outputs within 1 (truncation / the 0..127 special case); for a "
+               "port whose metadata say scale=logarithmic only type, range and monotonicity are demanded. The "
+               "model/implementation comparison is bit-exact (it ties the model to the code as it is): an "
+               "implementation that differs from the model only by values inside this tolerance is reported as a "
+               "correspondence break without failing input (no-failing-input-found), never as a property failure",
+               "unMap(a,k) while (a,k) is still queued for learning leaves it queued (the statement's 'unmapping an "
+               "address stops its controller' is read as: the controller bound to it stops; code, model and oracle "
+               "share this reading)"]
 TRUSTED = ["hand-written model RtoscModel/Midi.lean of midimapper.cpp (MidiMappernRT::map/unMap/clear/useFreeID/"
-           "generateNewBijection, killMap, MidiMapperStorage::handleCC/cloneValues/clone, MidiBijection, "
-           "MidiMapperRT::handleCC and its ports, PendingQueue)",
-           "the idealised learn protocol in tools/props/c20.py (the oracle's reading of the statement)"]
+           "generateNewBijection incl. its reading of the port's name and metadata, killMap, MidiMapperStorage::"
+           "handleCC/cloneValues/clone, MidiBijection, MidiMapperRT::handleCC and its ports, PendingQueue as a FIFO "
+           "list — proved to be a sound abstraction of the 32-cell ring: pending_queue_is_ring)",
+           "the address text is not modelled (an address is the index of its port); Ports::apropos finding nested "
+           "ports and the 1024-byte message buffers are exercised by the correspondence run only",
+           "the final packing of sign/significand/exponent into the 32 bits of a float (f32OfDyadic) is tied to the "
+           "code by the bit-exact correspondence run",
+           "the idealised learn protocol in tools/props/c20.py (the oracle's reading of the statement; it reproduces "
+           "the watch-credit handshake of the code)"]
 TECHNIQUE = "Lean 4 model + invariant proofs over all interleavings; differential run against the real two halves"
-LEVEL_TEXT = ("Lean theorems over every history and every delivery order of the two channels: the numeric clauses "
-              "(one message per value, in range, monotone, 14-bit composition) and the structural safety of the "
-              "snapshots hold unconditionally; the learn-handshake clauses (assigned to the oldest queued address, "
+LEVEL_TEXT = ("Lean theorems over every history and every delivery order of the two channels. Proved for every history, "
+              "hazards included: one message per value, none from other steps; the value sent is the port's callback "
+              "applied to the 14-bit value with the incoming value in the controller's half; the value actually "
+              "EMITTED (after rounding to float / truncation to int) lies in [min,max] and is monotone (int ports: "
+              "integral bounds, see assumptions; float ports: for the rounded value, the IEEE bit packing is "
+              "correspondence-checked); the message type follows the port's signature for every spelling the "
+              "protocol declares; structural safety of the snapshots; the pending ring refines to the model's list "
+              "for sessions of any length. The learn-handshake clauses (assigned to the oldest queued address, "
               "never-assigned controllers silent, other bindings unaffected, unmap stops) are proved for every "
               "history in which neither of the two known defect triggers fires, and both defects have proved "
-              "counterexamples; the model is compared with the real MidiMapperRT/MidiMappernRT on thousands of "
-              "generated histories per run and the property is evaluated directly on the implementation's output")
+              "counterexamples; the model is compared bit-exactly with the real MidiMapperRT/MidiMappernRT on "
+              "thousands of generated histories per run and the property is evaluated directly on the "
+              "implementation's output")
+CLONE_NOTE = (" and across every midi-bind of a hazard-free history (half_survives_bind_partial: cloneValues keeps "
+              "each bound controller's 7-bit half)")
 LEVEL_NOTE = ("partial for histories in which a /midi-use-CC request meets an empty learn queue (C20-K1; proved to need a "
-              "clear) or a midi-bind that answers no request is delivered while a request is in flight (C20-K2); the "
-              "in-range/monotone theorem is about the exact value of the linear map, its final rounding to float "
-              "(and truncation to int) is modelled exactly but covered by the correspondence run and the oracle only")
+              "clear) or a midi-bind that answers no request is delivered while a request is in flight (C20-K2); such a "
+              "history (about 20 % of the generated ones) is attributed to the finding only if the trigger holds, the "
+              "implementation's output has the structure the defect-mirroring model predicts (same messages, "
+              "addresses, types; values within tolerance) AND the part of the history in front of the first hazard "
+              "step satisfies the property on the implementation's own output. Open: that the OTHER half of a 14-bit "
+              "value is the last value of the address's other controller is proved at the storage level "
+              "(fine_composes_14bit: shared slot, coarse then fine, no midi-bind in between)" + CLONE_NOTE + "; the "
+              "monotone clause is proved of the value function (for any other half); these pieces are not "
+              "assembled into one end-to-end theorem about the sequence of messages of a whole history — that is "
+              "what the oracle checks on every generated history")
 
 THEOREMS += [
     "Rtosc.Midi.one_message_per_value",
     "Rtosc.Midi.other_steps_silent",
     "Rtosc.Midi.value_in_range_monotone",
     "Rtosc.Midi.special_case_in_range_monotone",
+    "Rtosc.Midi.emitted_int_in_range_monotone",
+    "Rtosc.Midi.emitted_float_in_range_monotone",
+    "Rtosc.Midi.f32Round_value",
+    "Rtosc.Midi.int_port_fractional_bound_counterexample",
+    "Rtosc.Midi.message_type_follows_port",
+    "Rtosc.Midi.port_type_follows_signature",
     "Rtosc.Midi.fine_composes_14bit",
+    "Rtosc.Midi.half_survives_bind_partial",
     "Rtosc.Midi.rt_acts_on_past_table",
+    "Rtosc.Midi.pending_queue_is_ring",
     "Rtosc.Midi.assigned_to_oldest_partial",
     "Rtosc.Midi.learn_completes_partial",
     "Rtosc.Midi.unassigned_silent_partial",
@@ -96,6 +143,11 @@ def _int(s, mx):
     return _nat(s, mx)
 
 
+# signature letter of a port spec -> message types the port accepts (what the statement calls the
+# parameter's type): ":i" ":f" "::i" "::f" ":f:i" ":i:f"
+SIGS = {"i": "i", "f": "f", "I": "i", "F": "f", "j": "if", "g": "if"}
+
+
 def parse(op):
     """strict parser of the line protocol; None = malformed (both sides answer `bad-op`)"""
     w = op.split()
@@ -107,12 +159,16 @@ def parse(op):
         return None
     for spec in specs:
         f = spec.split(":")
-        if len(f) != 3 or f[0] not in ("i", "f"):
+        if len(f) not in (3, 4) or not f[0] or f[0][0] not in SIGS or any(c not in "dpLsul" for c in f[0][1:]):
             return None
         mn, mx = _int(f[1], 8388607), _int(f[2], 8388607)
         if mn is None or mx is None:
             return None
-        ports.append((f[0], Fraction(mn, 8), Fraction(mx, 8)))
+        if len(f) == 4:
+            g = f[3].split(".")
+            if len(g) != 2 or _nat(g[0], 3) is None or _nat(g[1], 60) is None:
+                return None
+        ports.append((SIGS[f[0][0]], Fraction(mn, 8), Fraction(mx, 8), "L" in f[0][1:]))
     ops = []
     for t in w[1:]:
         if t in ("x", "r", "n"):
@@ -236,16 +292,16 @@ class Ideal:
 
 
 def exact(port, x):
-    _, mn, mx = port
+    mn, mx = port[1], port[2]
     return mn + Fraction(x, 16384) * (mx - mn)
 
 
 def check_value(port, kind_coarse, val, other, tok_type, tok_val):
     """is the printed value an acceptable image of the incoming 7-bit value?"""
-    t, mn, mx = port
-    if tok_type != t:
+    t, mn, mx, log = port
+    if tok_type not in t:
         return "type %s for a port of type %s" % (tok_type, t)
-    if t == "i":
+    if tok_type == "i":
         out = Fraction(int(tok_val))
         tol = Fraction(1)
     else:
@@ -253,6 +309,10 @@ def check_value(port, kind_coarse, val, other, tok_type, tok_val):
         tol = Fraction(4, 2 ** 24) * max(abs(mn), abs(mx), Fraction(1, 1024))
     if out < mn or out > mx:
         return "value %s outside [%s,%s]" % (float(out), float(mn), float(mx))
+    if log:
+        # the port asks for a logarithmic scale: the statement fixes range and monotonicity only, not
+        # the shape of the map
+        return None
     others = range(128) if other is None else [other]
     for o in others:
         x = (val << 7) | o if kind_coarse else (o << 7) | val
@@ -309,9 +369,9 @@ def oracle(op, out):
             if ideal.ambiguous:
                 # only the clauses that do not depend on who learned what
                 if got is not None:
-                    t, mn, mx = ports[got[0]]
+                    t, mn, mx, _ = ports[got[0]]
                     v = Fraction(int(got[2])) if got[1] == "i" else f32(int(got[2], 16))
-                    if got[1] != t or v < mn or v > mx:
+                    if got[1] not in t or v < mn or v > mx:
                         return where + "message outside the port's type/range: " + tok
                 continue
             if exp is None:
@@ -347,9 +407,64 @@ def _ask(lines):
     return p.stdout.split("\n")
 
 
+def _value_close(port, a, b):
+    """two printed messages `p<k>:<t>:<v>`: same address, same type, values within the tolerance the
+    oracle grants (float: 4 ulp of the range's magnitude, int: 1)"""
+    fa, fb = a.split(":"), b.split(":")
+    if len(fa) != 3 or len(fb) != 3 or fa[:2] != fb[:2]:
+        return False
+    try:
+        if fa[1] == "i":
+            return abs(int(fa[2]) - int(fb[2])) <= 1
+        if fa[1] == "f":
+            tol = Fraction(4, 2 ** 24) * max(abs(port[1]), abs(port[2]), Fraction(1, 1024))
+            return abs(f32(int(fa[2], 16)) - f32(int(fb[2], 16))) <= tol
+    except (ValueError, OverflowError, struct.error):
+        return False
+    return False
+
+
+def same_structure(ports, impl_out, model_out):
+    """the implementation did what the defect-mirroring model predicts, up to the value tolerance of the
+    statement: the same number of outputs, every output the same messages to the same addresses with the same
+    types (the sanitizer's diagnosis of a crash is not predicted: any crash report matches `crash`)"""
+    if impl_out == model_out:
+        return True
+    if impl_out.startswith("crash") or model_out.startswith("crash"):
+        return impl_out.startswith("crash") and model_out.startswith("crash")
+    ta, tb = impl_out.split(), model_out.split()
+    if len(ta) != len(tb):
+        return False
+    for x, y in zip(ta, tb):
+        if x == y:
+            continue
+        if x == "-" or y == "-" or x.startswith("X") or y.startswith("X"):
+            return False
+        ma, mb = x.split("+"), y.split("+")
+        if len(ma) != len(mb):
+            return False
+        for a, b in zip(ma, mb):
+            if a == b:
+                continue
+            k = a.split(":")[0]
+            if not (k.startswith("p") and k[1:].isdigit() and int(k[1:]) < len(ports)):
+                return False
+            if not _value_close(ports[int(k[1:])], a, b):
+                return False
+    return True
+
+
 def known(op, impl_out, model_out, defs):
+    """An input is attributed to a known finding only if (1) the finding's trigger predicate holds for the
+    history (evaluated by the compiled Lean model), (2) the implementation's output has the structure the
+    defect-mirroring model predicts (same messages, addresses, types; values within the statement's tolerance),
+    and (3) the part of the history IN FRONT OF the first hazard step, on which the defect cannot have acted
+    yet, satisfies the property on the implementation's own output."""
     ids = {d.get("id"): d for d in defs}
     if not ids:
+        return None
+    p = parse(op)
+    if p is None:
         return None
     try:
         r = _ask(["T " + op, op])
@@ -358,13 +473,20 @@ def known(op, impl_out, model_out, defs):
             model_out = r[1]
     except Exception:
         return None
-    # the defect-mirroring model must predict exactly the implementation's (wrong) output;
-    # the model does not name the sanitizer's diagnosis, so any crash report matches `crash`.
-    same = impl_out == model_out
-    if not same:
-        return None
     k1 = "K1=1" in trig
     k2 = "K2=1" in trig
+    if not (k1 or k2):
+        return None
+    if not same_structure(p[0], impl_out, model_out):
+        return None
+    at = [t for t in trig.split() if t.startswith("at=")]
+    if at and not impl_out.startswith("crash"):
+        w = op.split()
+        pre = w[:1 + int(at[0][3:])]
+        ncc = sum(1 for t in pre[1:] if t.startswith("c:"))
+        pre_out = " ".join(impl_out.split()[:ncc]) if ncc else "."
+        if oracle(" ".join(pre), pre_out) is not None:
+            return None
     if k2 and "C20-K2" in ids:
         return "C20-K2"
     if k1 and "C20-K1" in ids:
@@ -375,23 +497,80 @@ def known(op, impl_out, model_out, defs):
 # ---------------------------------------------------------------------------------------------
 # generators
 # ---------------------------------------------------------------------------------------------
+# int ranges have integral bounds (multiples of 8 eighths): the statement speaks of "int and float ranges",
+# an int parameter whose metadata give a fractional minimum has no int range (see ASSUMPTIONS)
 RANGES_I = [(0, 1016), (0, 1016), (0, 800), (-512, 504), (0, 8), (-8000, 8000), (8, 8), (0, 131064), (-24, 40),
-            (0, 9000), (8192, 16384)]
+            (0, 9000), (8192, 16384), (8, 1016), (512, 1016), (-1016, 1016), (0, 1008), (0, 1024), (0, 0),
+            (-1016, 0), (0, 2040), (800, 8000)]
 RANGES_F = [(0, 8), (-8, 8), (0, 1016), (-3, 5), (1, 801), (-80000, 80000), (4, 4), (0, 1), (-1000001, 1000003),
-            (8388600, 8388607), (-7, -1)]
+            (8388600, 8388607), (-7, -1), (160, 160000), (512, 1016)]
+SIG_WEIGHTS = [("i", 28), ("f", 28), ("I", 13), ("F", 13), ("j", 9), ("g", 9)]
+PADS = [0, 1, 5, 12, 17, 18, 19, 20, 21, 22, 23, 24, 25, 26, 27, 28, 29, 36, 44, 52, 60]
+LIM = 1048575       # |bound| of a random range, in units
+
+
+def rand_int_range(rng):
+    r = rng.random()
+    if r < 0.25:                                   # upper bound 127 (the special case's neighbourhood)
+        lo, hi = rng.choice([0, 1, -1, 64, -127, -128, 126, 127, rng.randint(-300, 127)]), 127
+    elif r < 0.35:                                 # lower bound 0
+        lo, hi = 0, rng.choice([1, 2, 126, 128, 255, 16383, 16384, rng.randint(1, LIM)])
+    else:
+        lo = rng.choice([0, 1, -1, 64, -64, rng.randint(-1000, 1000), rng.randint(-LIM, LIM)])
+        hi = lo + rng.choice([0, 1, 2, 7, 126, 127, 128, 1000, 16383, 16384, rng.randint(1, 200000)])
+    lo, hi = max(-LIM, min(LIM, lo)), max(-LIM, min(LIM, hi))
+    return 8 * min(lo, hi), 8 * max(lo, hi)
+
+
+def rand_float_range(rng):
+    lo = rng.choice([0, 8, -8, rng.randint(-100, 100), rng.randint(-8000, 8000), rng.randint(-8000000, 8000000)])
+    hi = lo + rng.choice([0, 1, 8, 1016, rng.randint(1, 100), rng.randint(1, 100000), rng.randint(1, 8000000)])
+    return lo, min(hi, 8388607)
+
+
+def gen_port(rng, stats=None):
+    x = rng.randrange(100)
+    for sig, wgt in SIG_WEIGHTS:
+        if x < wgt:
+            break
+        x -= wgt
+    if "i" in SIGS[sig]:
+        table = rng.random() < 0.65
+        mn, mx = rng.choice(RANGES_I) if table else rand_int_range(rng)
+    else:
+        table = rng.random() < 0.65
+        mn, mx = rng.choice(RANGES_F) if table else rand_float_range(rng)
+    flags = ""
+    if rng.random() < 0.45:
+        flags = "".join(c for c in "dpLsul" if rng.random() < 0.3)
+        if "L" in flags and "l" in flags:
+            flags = flags.replace(rng.choice("Ll"), "")
+    spec = "%s%s:%d:%d" % (sig, flags, mn, mx)
+    shape = None
+    if rng.random() < 0.45:
+        shape = (rng.choice([0, 0, 1, 2, 3]), rng.choice(PADS) if rng.random() < 0.8 else rng.randint(0, 60))
+        spec += ":%d.%d" % shape
+    if stats is not None:
+        stats["sig_" + sig] = stats.get("sig_" + sig, 0) + 1
+        stats["range_random"] = stats.get("range_random", 0) + (0 if table else 1)
+        stats["int_max127_min_nonzero"] = stats.get("int_max127_min_nonzero", 0) + (
+            1 if "i" in SIGS[sig] and mx == 1016 and mn != 0 else 0)
+        stats["with_extra_metadata"] = stats.get("with_extra_metadata", 0) + (1 if flags else 0)
+        stats["scale_logarithmic"] = stats.get("scale_logarithmic", 0) + (1 if "L" in flags else 0)
+        if shape:
+            stats["nested_address"] = stats.get("nested_address", 0) + (1 if shape[0] else 0)
+            alen = 1 + 3 * shape[0] + 2 + shape[1]
+            stats["address_len_ge_24"] = stats.get("address_len_ge_24", 0) + (1 if alen >= 24 else 0)
+        stats["ports"] = stats.get("ports", 0) + 1
+    return spec
+
+
+PORT_STATS = {}
 
 
 def gen_ports(rng):
     n = rng.randint(2, 4)
-    specs = []
-    for _ in range(n):
-        if rng.random() < 0.5:
-            mn, mx = rng.choice(RANGES_I)
-            specs.append("i:%d:%d" % (mn, mx))
-        else:
-            mn, mx = rng.choice(RANGES_F)
-            specs.append("f:%d:%d" % (mn, mx))
-    return n, "P:" + ",".join(specs)
+    return n, "P:" + ",".join(gen_port(rng, PORT_STATS) for _ in range(n))
 
 
 def gen_ctrls(rng):
@@ -482,6 +661,26 @@ def gen_learn_heavy(rng):
     return " ".join(t + probe(rng, ctrls))
 
 
+def gen_long(rng):
+    """one long session: 33..45 completed learn handshakes (learn, drive, unmap or relearn), every message
+    delivered before the next call so that no defect trigger fires; then a probe"""
+    nports, ptok = gen_ports(rng)
+    ctrls = gen_ctrls(rng)
+    t = [ptok]
+    for _ in range(rng.randint(33, 45)):
+        a = rng.randrange(nports)
+        k = rng.choice("cccf")
+        c = rng.choice(ctrls)
+        t += ["m%d%s" % (a, k), "r", "r", cc_tok(c, rval(rng)), "n", "r", cc_tok(c, rval(rng))]
+        r = rng.random()
+        if r < 0.6:
+            t += ["u%d%s" % (a, k), "r"]
+        elif r < 0.8:
+            t += ["u%d%s" % (a, k), "r", "u%d%s" % (a, "f" if k == "c" else "c"), "r"]
+        # else: the binding stays; a later cycle relearns the address or reuses the controller
+    return " ".join(t + probe(rng, ctrls))
+
+
 SCRIPTS = [
     ["m0c", "c:5:3", "c:5:9", "m1c", "c:7:1", "u0c", "c:5:4", "c:7:2"],
     ["m0c", "m0f", "c:5:100", "c:6:3", "c:5:101", "u0c", "c:6:5"],
@@ -515,7 +714,7 @@ def gen_enumerated(rng, count):
     `count` random points of the product space (the thorough tier walks most of it)"""
     for _ in range(count):
         s = rng.choice(SCRIPTS)
-        t = ["P:i:0:1016,f:-8:8"]
+        t = ["P:i:0:1016,f:-8:8" if rng.random() < 0.5 else gen_ports(rng)[1]]
         for o in s:
             t.append(o)
             f = rng.choice(FILL)
@@ -525,13 +724,14 @@ def gen_enumerated(rng, count):
         yield " ".join(t)
 
 
-MALFORMED = ["P:i:0:1016 c:5:128", "P:i:0:1016 m3c", "P: m0c", "P:q:0:8 m0c", "P:i:0:1016 c:5", "m0c r",
+MALFORMED = ["P:i:0:1016:4.0 m0c", "P:i:0:1016:0.61 m0c", "P:ix:0:8 m0c", "P:i:0:8:1 m0c", "P:i:0:1016 c:5:128", "P:i:0:1016 m3c", "P: m0c", "P:q:0:8 m0c", "P:i:0:1016 c:5", "m0c r",
              "P:i:0:1016 m0", "P:i:0:99999999999 m0c"]
 
 
 def generate(rng, tier, stats):
     n = 8000 if tier == "quick" else 90000
-    kinds = {"sync": 0, "sync+clear": 0, "random": 0, "random+clear": 0, "learn-heavy": 0, "enumerated": 0,
+    PORT_STATS.clear()
+    kinds = {"long-session": 0, "sync": 0, "sync+clear": 0, "random": 0, "random+clear": 0, "learn-heavy": 0, "enumerated": 0,
              "exhaustive-delivery-orders": 0, "malformed": 0}
     hist = {"ops_per_line": {}, "cc_ops": 0, "map_ops": 0, "unmap_ops": 0, "clear_ops": 0, "deliveries": 0,
             "lines_with_clear": 0, "lines_with_fine": 0}
@@ -541,7 +741,7 @@ def generate(rng, tier, stats):
     def account(line):
         produced.append(line)
         w = line.split()[1:]
-        b = str(min(len(w) // 10 * 10, 90))
+        b = str(min(len(w) // 10 * 10, 90)) if len(w) < 100 else "100+"
         hist["ops_per_line"][b] = hist["ops_per_line"].get(b, 0) + 1
         hist["cc_ops"] += sum(1 for x in w if x[0] == "c")
         hist["map_ops"] += sum(1 for x in w if x[0] == "m")
@@ -561,7 +761,10 @@ def generate(rng, tier, stats):
             yield account(l)
     for i in range(n):
         r = rng.random()
-        if r < 0.20:
+        if r < 0.02:
+            kinds["long-session"] += 1
+            yield account(gen_long(rng))
+        elif r < 0.20:
             kinds["sync"] += 1
             yield account(gen_sync(rng, False))
         elif r < 0.27:
@@ -582,6 +785,7 @@ def generate(rng, tier, stats):
                 yield account(l)
     stats.update({"streams": kinds})
     stats.update(hist)
+    stats["port_tables"] = dict(PORT_STATS)
     # how many histories fire a defect trigger (evaluated by the compiled model; measured, not assumed)
     try:
         trig = []
